@@ -151,6 +151,32 @@ HAMS = {
 }
 
 
+def _guard_cases():
+    for ops in ("Z0", "X0*Y2", "I0"):
+        for re in (1.0, -3.0, 1e-6, 1e6):
+            for mag in (0.0, 1e-13, 1e-12, 1e-6, 1e-3, 1.0):
+                for sgn in (1, -1):
+                    yield (ops, re, sgn * mag)
+
+
+def _check_guard(case):
+    from orquestra.quantum.evolution import time_evolution_for_term
+    from orquestra.quantum.operators import PauliTerm
+    ops, re, im = case
+    try:
+        time_evolution_for_term(PauliTerm(ops, complex(re, im)), 0.3)
+        raised = False
+    except ValueError:
+        raised = True
+    if ops == "I0":
+        return (not raised), "a constant term was refused"
+    if abs(im) >= 1e-6 and not raised:
+        return False, f"coefficient {complex(re, im)} of {ops}: an imaginary part of {im} was accepted (silently truncated)"
+    if abs(im) <= 1e-12 and raised:
+        return False, f"coefficient {complex(re, im)} of {ops}: a negligible imaginary part {im} was refused"
+    return True, "ok"
+
+
 def build(tier, seed):
     obs = []
     width = 3 if tier == "quick" else 4
@@ -257,7 +283,11 @@ OBSERVED = f"imaginary part {{im}}: raised={{raised}}"
             return core.undecided("engine-V", "no VC generated")
         return core.discharged("z3", _t.time() - t0, queries=vcs, sample={"vcs": vcs, "text": results[0].span})
     obs.append(Ob("C16.term.guard", "proof", FN[:1], guard,
-                  "time_evolution_for_term raises ValueError iff the coefficient's imaginary part exceeds 1e-9 in magnitude (non-constant term); never for a constant term"))
+                  "time_evolution_for_term raises ValueError iff the coefficient's imaginary part exceeds 1e-9 in magnitude (non-constant term); never for a constant term",
+                  fallback=vprop.enum_ob("x", [], _guard_cases, _check_guard, "").run))
+    obs.append(vprop.enum_ob("C16.term.guard.enum", FN[:1], _guard_cases, _check_guard,
+                             "bounded: coefficients re + i im with re in {1, -3, 1e-6, 1e6} and |im| from 0 to 1 on three term shapes: an imaginary part of 1e-6 or more is refused "
+                             "whatever the size of the real part, one of 1e-12 or less is accepted, a constant term is never refused"))
 
     # ---- sums and derivatives on fixed Hamiltonians, all t
     def sum_ob(hname, spec, n_steps):
